@@ -394,46 +394,130 @@ def r3_wiring(repo=None):
     return r
 
 
+def _below_helper_ok(m, name):
+    """is module function `name`(path, top) a component-wise 'path lies below directory top' test?  Accepted bodies (single return):
+    path.startswith(os.path.join(top, '')) | path.startswith(top + os.sep) | path.startswith(top.rstrip(os.sep) + os.sep) |
+    os.path.commonpath([top, path]) == top (with path != top)"""
+    f = m.functions.get(name)
+    if f is None or len(f.args.args) != 2:
+        return None
+    a, b = f.args.args[0].arg, f.args.args[1].arg
+    body = [x for x in f.body if not (isinstance(x, ast.Expr) and isinstance(x.value, ast.Constant))]
+    if len(body) != 1 or not isinstance(body[0], ast.Return):
+        return None
+    t = norm(ast.unparse(body[0].value))
+    for path, top in ((a, b), (b, a)):
+        if t in ("%s.startswith(os.path.join(%s, ''))" % (path, top), "%s.startswith(%s + os.sep)" % (path, top),
+                 "%s.startswith(%s.rstrip(os.sep) + os.sep)" % (path, top)):
+            return (path, top)
+    return None
+
+
 def r4_channel_pairs(repo=None):
-    """Positive evidence only: the channel list may be split on commas and stripped, and each channel is mapped to one pair; any
-    filter (comprehension `if`, conditional append / continue, set()/dict.fromkeys(), remove/pop, prefix tests) is reported."""
-    r = Rule("C18.R4", "every requested channel becomes exactly one (source, destination) pair")
+    """Every requested channel is transferred, and every file once.  The channel values may be split on commas and stripped and
+    each is mapped to one (source, destination) pair.  A pair may be dropped from the list only if nothing is lost by it: (a) it is
+    equal to a pair already kept (membership test on the kept list), or (b) recursion is on (`args.recursive` true in the same
+    condition) and its source lies *below* the source of another requested pair, decided component-wise (a helper of the accepted
+    forms, see _below_helper_ok).  Any other filter (a comprehension `if`, set(), character-wise commonprefix / startswith on the
+    raw strings, pruning without the recursion guard) is reported: it drops a channel the equivalent listing selects."""
+    r = Rule("C18.R4", "every requested channel is transferred: a (source, destination) pair is dropped only when another pair covers it")
     m = pyfront.mod("list_drf", repo)
     q = prepare_fn(m)
-    f = m.flat(q).fn()
+    f = m.fn(q)
+    fl = m.flat(q).fn()
+    par = {}
+    for n in ast.walk(f):
+        for ch in ast.iter_child_nodes(n):
+            par[ch] = n
     susp = []
+    allowed = []
     for n in ast.walk(f):
         if isinstance(n, ast.comprehension) and n.ifs:
             susp.append(n.ifs[0])
         if isinstance(n, ast.Call):
             cn = pyfront.call_name(n) or ""
-            if cn in ("set", "frozenset", "dict.fromkeys", "filter", "os.path.commonprefix", "os.path.commonpath", "collections.OrderedDict.fromkeys"):
+            if cn in ("set", "frozenset", "dict.fromkeys", "filter", "os.path.commonprefix", "collections.OrderedDict.fromkeys"):
                 susp.append(n)
             if isinstance(n.func, ast.Attribute) and n.func.attr in ("remove", "pop", "discard", "clear", "startswith") and not cn.startswith("os."):
                 susp.append(n)
-        if isinstance(n, (ast.For, ast.While)):
-            for x in ast.walk(n):
-                if isinstance(x, ast.If) and any(isinstance(y, (ast.Continue, ast.Break)) or (
-                        isinstance(y, ast.Call) and isinstance(y.func, ast.Attribute) and y.func.attr in ("append", "extend", "add"))
-                        for y in ast.walk(x)):
-                    susp.append(x)
-    pairs = [n for n in ast.walk(f) if isinstance(n, (ast.ListComp, ast.GeneratorExp)) and isinstance(n.elt, ast.Tuple) and len(n.elt.elts) == 2
-             and all(isinstance(e, ast.Call) and pyfront.call_name(e) == "os.path.join" for e in n.elt.elts)]
+    # conditional skips in loops that build the pair list
+    for lp in [x for x in ast.walk(f) if isinstance(x, (ast.For, ast.While))]:
+        for x in ast.walk(lp):
+            if not isinstance(x, ast.If):
+                continue
+            skips = any(isinstance(y, (ast.Continue, ast.Break)) for y in x.body)
+            cond_append = any(isinstance(y, ast.Call) and isinstance(y.func, ast.Attribute) and y.func.attr in ("append", "extend", "add")
+                              for st in x.body for y in ast.walk(st))
+            if not (skips or cond_append):
+                continue
+            if cond_append and not skips:
+                susp.append(x)
+                continue
+            # `if <cond>: continue` -- the pair is dropped when cond holds
+            t = x.test
+            if not isinstance(lp, ast.For):
+                susp.append(x)
+                continue
+            tgt = norm(ast.unparse(lp.target))
+            # (a) membership of the pair in the kept list
+            if isinstance(t, ast.Compare) and len(t.ops) == 1 and isinstance(t.ops[0], ast.In) and norm(ast.unparse(t.left)) in (tgt, "(%s)" % tgt):
+                kept = norm(ast.unparse(t.comparators[0]))
+                appends = [y for y in ast.walk(lp) if isinstance(y, ast.Call) and isinstance(y.func, ast.Attribute) and y.func.attr == "append"
+                           and norm(ast.unparse(y.func.value)) == kept]
+                if appends:
+                    allowed.append((x, "a pair equal to one already kept is skipped"))
+                    continue
+            # (b) recursion on and source below another requested source
+            conj = t.values if isinstance(t, ast.BoolOp) and isinstance(t.op, ast.And) else [t]
+            has_rec = any(norm(ast.unparse(c)) == "args.recursive" for c in conj)
+            below = None
+            for c in conj:
+                if isinstance(c, ast.Call) and pyfront.call_name(c) == "any" and c.args and isinstance(c.args[0], ast.GeneratorExp):
+                    g = c.args[0]
+                    if isinstance(g.elt, ast.Call) and isinstance(g.elt.func, ast.Name) and len(g.elt.args) == 2 and not g.generators[0].ifs:
+                        roles = _below_helper_ok(m, g.elt.func.id)
+                        if roles:
+                            params = [a_.arg for a_ in m.functions[g.elt.func.id].args.args]
+                            bind = dict(zip(params, [norm(ast.unparse(a_)) for a_ in g.elt.args]))
+                            src_name = norm(ast.unparse(lp.target.elts[0])) if isinstance(lp.target, ast.Tuple) else None
+                            gt = g.generators[0].target
+                            other = norm(ast.unparse(gt.elts[0])) if isinstance(gt, ast.Tuple) else norm(ast.unparse(gt))
+                            same_list = norm(ast.unparse(g.generators[0].iter)) == norm(ast.unparse(lp.iter))
+                            if bind.get(roles[0]) == src_name and bind.get(roles[1]) == other and same_list:
+                                below = g.elt.func.id
+            if has_rec and below and len(conj) == 2:
+                allowed.append((x, "with recursion on, a channel below another requested channel (component-wise test %s) is "
+                                   "transferred along with that one" % below))
+                continue
+            susp.append(x)
+    # helpers that look like prefix tests but are not component-wise are suspicious where they are used
+    pairs = [n for n in ast.walk(f) if isinstance(n, (ast.ListComp, ast.GeneratorExp)) and isinstance(n.elt, ast.Tuple) and len(n.elt.elts) == 2]
     pair_ok = False
     for pc in pairs:
         v = pc.generators[0].target
-        if isinstance(v, ast.Name) and [norm(ast.unparse(e)) for e in pc.elt.elts] == [
-                "os.path.join(args.src, %s)" % v.id, "os.path.join(args.dest, %s)" % v.id] and len(pc.generators) == 1:
+        if not isinstance(v, ast.Name) or len(pc.generators) != 1:
+            continue
+        texts = [norm(ast.unparse(e)) for e in pc.elt.elts]
+        plain = ["os.path.join(args.src, %s)" % v.id, "os.path.join(args.dest, %s)" % v.id]
+        if texts == plain or texts == ["os.path.normpath(%s)" % t_ for t_ in plain]:
             pair_ok = True
     fallback = [n for n in ast.walk(f) if isinstance(n, ast.Assign) and norm(ast.unparse(n.value)) == "[(args.src, args.dest)]"]
     if susp:
         bad = susp[0]
-        r.violation(m.rel, q, norm(ast.unparse(bad))[:100], "the list of requested channels is filtered, de-duplicated or otherwise "
-                    "modified before the transfer loops: a requested channel can be skipped (e.g. a nested channel together with "
-                    "--only), so fewer files are transferred than the equivalent listing selects", line=getattr(bad, "lineno", f.lineno))
+        r.violation(m.rel, q, norm(ast.unparse(bad))[:100], "the list of requested channels is filtered in a way that can lose a channel: "
+                    "only a repeated pair, or - with recursion on - a channel lying (component-wise) below another requested channel may "
+                    "be skipped; anything else (pruning together with --only, a character-wise prefix test such as `ch1` / `ch10`) "
+                    "transfers fewer files than the equivalent listing selects", line=getattr(bad, "lineno", f.lineno))
     elif pair_ok and fallback:
-        r.ok("%s:%s %s" % (m.rel, f.lineno, q), "the channel values are only split on commas and stripped; one unfiltered (src/ch, dest/ch) pair "
+        r.ok("%s:%s %s" % (m.rel, f.lineno, q), "the channel values are only split on commas and stripped; one (src/ch, dest/ch) pair "
              "per channel, or (src, dest) when no channel was given")
+        for x, why in allowed:
+            r.ok("%s:%s %s `if %s: continue`" % (m.rel, x.lineno, q, norm(ast.unparse(x.test))[:70]), why)
+        if not allowed:
+            r.violation(m.rel, q, "args.srcdests built from every channel entry",
+                        "repeated or nested channel entries (`-c ch0,ch0/metadata`, recursion is the default) are transferred entry by "
+                        "entry: a file below two requested channels is transferred twice - `ln` fails with FileExistsError on the second "
+                        "link and never reaches the remaining channels, `mv` lists a source it has already changed", line=f.lineno)
     else:
         raise AnalysisError("%s: construction of the (source, destination) pairs not recognised" % q)
     r.guard(1)
@@ -451,8 +535,9 @@ EXPLANATION = (
     "attributes added, minus the keys deleted, equal ilsdrf's parameter list for cp/mv/ln/ls; include/exclude options are "
     "store_true/store_false pairs on one destination; --only switches recursion off. R3: drf_command registers the four commands "
     "with the matching builders whose set_defaults(func=...) name the matching run functions; primitives are shutil.copy2, "
-    "os.link/os.symlink, shutil.move; ls lists through ilsdrf/lsdrf. R4: the channel list is only split on commas and mapped, unfiltered, "
-    "to (source, destination) pairs. Does NOT decide byte identity (library code).")
+    "os.link/os.symlink, shutil.move; ls lists through ilsdrf/lsdrf. R4: the channel list is only split on commas and mapped to (source, destination) "
+    "pairs; a pair is dropped only if it repeats a kept one or, with recursion on, lies component-wise below another requested "
+    "channel (so every file is transferred exactly once and no requested channel is lost). Does NOT decide byte identity (library code).")
 TECHNIQUE = ('Python ast; alpha-equivalence of sibling commands; option-table vs signature agreement; registry/table checks')
 ASSUMPTIONS = ["argparse derives dest from the first long option string", "shutil/os primitives behave as documented"]
 FILES = [LD, "python/digital_rf/drf_command.py"]
